@@ -768,6 +768,12 @@ class XMLConverter(PDFConverter[AnyIO]):
             text = self.CONTROL.sub("", text)
         self.write(enc(text))
 
+    def enc_attr(self, value: str) -> str:
+        """Encode a document-controlled name for use as an attribute value"""
+        if self.stripcontrol and isinstance(value, str):
+            value = self.CONTROL.sub("", value)
+        return enc(value)
+
     def receive_layout(self, ltpage: LTPage) -> None:
         def show_group(item: LTItem) -> None:
             if isinstance(item, LTTextBox):
@@ -818,7 +824,8 @@ class XMLConverter(PDFConverter[AnyIO]):
                 )
                 self.write(s)
             elif isinstance(item, LTFigure):
-                s = f'<figure name="{enc(item.name)}" bbox="{bbox2str(item.bbox)}">\n'
+                name = self.enc_attr(item.name)
+                s = f'<figure name="{name}" bbox="{bbox2str(item.bbox)}">\n'
                 self.write(s)
                 for child in item:
                     render(child)
@@ -846,7 +853,7 @@ class XMLConverter(PDFConverter[AnyIO]):
                     '<text font="%s" bbox="%s" colourspace="%s" '
                     'ncolour="%s" size="%.3f">'
                     % (
-                        enc(item.fontname),
+                        self.enc_attr(item.fontname),
                         bbox2str(item.bbox),
                         item.ncs.name,
                         item.graphicstate.ncolor,
